@@ -12,260 +12,445 @@ Definition show_fres (r : fres) : string :=
   end.
 Definition check (rs : list rune) : string := digest (show_fres (format_res rs)).
 Definition full (rs : list rune) : string := show_fres (format_res rs).
-Eval vm_compute in ("<<<M165>>>" ++ check (runes_of_ascii "packet falsey { char[7
-    ]
-Foo @calculatedFrom( ""CRC32"" ) , @tag(
-    //
-    10)	u8 Packet`" ++ [233]%N ++ runes_of_ascii "` ,repeat  stringy
+Eval vm_compute in ("<<<M1730>>>" ++ check (runes_of_ascii "MetaData
+chars {int8
+
+    Z9_
+
+,  float	rootA
+
+`tab	here` 	 // @lengthOf(
+	  , 
+      //x
+		// @lengthOf(
+	  T
+
+o`it's`
+
 ,
-@lengthOf( // a // b
-float)tag { repeat
-    u8x {
-int16 charz@lengthOf(trueish ) , //	t
-repeat  string calculatedFrom,
-charz @calculatedFrom(  ""a\""b""
-)	`line1
-line2`
+	roots  int	,  // c
+    repeatCount MetaDataX
+	, float32
+	falsey `say ""hi""`, 
+}  packet
+msg_type
+	{  repeat	f32
+o  // `tick` ""quote"" 'q'
+	, @tag(
+
+0
+) 
+char[]A
+
+,repeat 
+char[] tag`say ""hi""`
+,	repeat char[
+
+0 ]
+	Z9_ ,
+
+    zchar[ 
+1
+	]  lengthOf
+	,
+
+    i64 
+T  , 
+match
+	float
+    as leftPad{ 
+007 :
+len/// triple
+    ,
+""it's"" : 
+len
+
+    , ""it's""  :// @lengthOf(
+		float[
+
+255	,
+00	,
+    ""abc"" , ""abc""
 ,
-},u64
-    MetaDataX @calculatedFrom( """ ++ [128512]%N ++ runes_of_ascii """
-    ) `" ++ [233]%N ++ runes_of_ascii "`
-    ,rootA
-    // packet A { u8 x, }
-    {
-    repeat	u64 BodyLength
-`" ++ [233]%N ++ runes_of_ascii "` , pack @calculatedFrom( //x
-""{,}"" )
-    `" ++ [28040; 24687; 31867; 22411]%N ++ runes_of_ascii "` ,repeat // c
-x charz,
-},
-    // a // b
-    char[] packetx, }	, // `tick` ""quote"" 'q'
-calculatedFrom , u x_y_z
-,repeat	int	i64_ ,@leftPad (
-    ' '
-)u32 T @calculatedFrom( ""{,}"" )
-, repeat
-    metadata , } root packet
-chars
-{ char[	65535
-]  pack @lengthOf( As ) `tab	here` , char[
-255] msg_type `// not a comment`
-    ,@calculatedFrom(
-    ""// no comment"" ) @tag( //	t
-0 ) @tag(10 ) repeat Header {
-    char[]
-// @lengthOf(
-// " ++ [27880; 37322]%N ++ runes_of_ascii "
-i64_,repeat T//x
-`` ,match uint8x	as i64_ {
-00// `tick` ""quote"" 'q'
-: _x ,	65535: //
-Z9_,
-""1""
-: u8x ,
-007 : Z9_
-, 255
-:
-matchKey
-""1"" :
-crc , } , } ,
-    @calculatedFrom(	""packet""	) match int as x_y_z{ 0123456789 :	Logon
-    // @lengthOf(
-    ,
-    //	t
-    [ 0123456789, ""it's"" ]
-:
-int
-    , [""a	b"" , ""CRC32"" , 0, 4294967296 , """"	] :
-pack , 0 : u , } , match // @lengthOf(
-string_ as
-int
-{ 0: repeatCount [ ""abc""
-    ] : // " ++ [27880; 37322]%N ++ runes_of_ascii "
-float 007: msg_type , [
-    ""a\""b""	]:
-charz , } , i16 MetaDataX`say ""hi""`, repeat u `tab	here` , repeat falsey  { repeat i8 lengthOf `a\` ,
-    repeatCount@lengthOf( o)
-    `{ , }`,}, }packet rootA
-    { calculatedFrom//	t
-@calculatedFrom( ""x y"") ,
-char Pad @calculatedFrom( ""a\""b"" ) `" ++ [233]%N ++ runes_of_ascii "`
-    , @leftPad
-( '\x00' )	repeat float64 tag ,
-    // " ++ [27880; 37322]%N ++ runes_of_ascii "
-    @calculatedFrom( ""1"") repeat Foo ,  } // " ++ [27880; 37322]%N)).
-Eval vm_compute in ("<<<M383>>>" ++ check (runes_of_ascii "options {
-	StringPrefixLenType = u16;
-	ArrayPrefixLenType = u16;
-}
 
-packet SampleBinary {
-    uint16 MsgType `" ++ [28040; 24687; 31867; 22411]%N ++ runes_of_ascii "`,
-    u16 BodyLenght @lengthOf(Body) `" ++ [28040; 24687; 20307; 38271; 24230]%N ++ runes_of_ascii "`,
-    match MsgType as Body {
-        1 : Logon,
-        2 : Logout,
-        3 : Heartbeat,
-        4 : RiskControlRequest,
-        5 : RiskControlResponse,
-    },
-        @calculatedFrom(""CRC32"")
-    u32 Ckecksum `" ++ [26657; 39564; 21644]%N ++ runes_of_ascii "`,
-}
+    1
 
-packet Logon {
-     @leftPad('0')
-    char[10] UserName `" ++ [29992; 25143; 21517]%N ++ runes_of_ascii "`,
-    string Password `" ++ [23494; 30721]%N ++ runes_of_ascii "`,
-    uint64 ClientId `" ++ [23458; 25143; 31471]%N ++ runes_of_ascii "ID`,
-    u16 HeartbeatInterval `" ++ [24515; 36339; 38388; 38548]%N ++ runes_of_ascii "`,
-}
-
-packet Logout {
-      @rightPad('0')
-    char[10] UserName `" ++ [29992; 25143; 21517]%N ++ runes_of_ascii "`,
-    uint64 ClientId `" ++ [23458; 25143; 31471]%N ++ runes_of_ascii "ID`,
-}
-
-packet Heartbeat {
-}
-
-packet RiskControlRequest {
-    string UniqueOrderId `" ++ [21807; 19968; 35746; 21333; 21495]%N ++ runes_of_ascii "`,
-    char[16] ClOrdID `" ++ [23458; 25143; 35746; 21333; 21495]%N ++ runes_of_ascii "`,
-    char[3] MarketID `" ++ [24066; 22330]%N ++ runes_of_ascii "id`,
-    char[12] SecurityID `" ++ [35777; 21048; 20195; 30721]%N ++ runes_of_ascii "`,
-    char Side `" ++ [20080; 21334; 26041; 21521]%N ++ runes_of_ascii "`,
-    char OrderType `" ++ [35746; 21333; 31867; 22411]%N ++ runes_of_ascii "`,
-    u64 Price `" ++ [20215; 26684]%N ++ runes_of_ascii "`,
-    u32 Qty `" ++ [25968; 37327]%N ++ runes_of_ascii "`,
-    repeat string ExtraInfo `" ++ [38468; 21152; 20449; 24687]%N ++ runes_of_ascii "`,
-    repeat SubOrder {
-    		char[16] ClOrdID `" ++ [23376; 35746; 21333; 21495]%N ++ runes_of_ascii "`,
-    		u64 Price `" ++ [23376; 35746; 21333; 20215; 26684]%N ++ runes_of_ascii "`,
-    		u32 Qty `" ++ [23376; 35746; 21333; 25968; 37327]%N ++ runes_of_ascii "`,
-    	},
-}
-
-packet RiskControlResponse {
-    string UniqueOrderId `" ++ [21807; 19968; 35746; 21333; 21495]%N ++ runes_of_ascii "`,
-    i32 Status `" ++ [29366; 24577]%N ++ runes_of_ascii "`,
-    string Msg `" ++ [32467; 26524; 20449; 24687]%N ++ runes_of_ascii "`,
-    repeat Detail,
-}
-
-packet Detail {
-    string RuleName `" ++ [35268; 21017; 21517; 31216]%N ++ runes_of_ascii "`,
-    u16 Code `" ++ [21407; 22240; 20195; 30721]%N ++ runes_of_ascii "`,
-}")).
-Eval vm_compute in ("<<<M134>>>" ++ check (runes_of_ascii "packet // " ++ [128512]%N ++ runes_of_ascii " emoji
-x{
-    //x
-    lengthOf @calculatedFrom(""abc"")
-`u8 x,`
-    ,
-@rightPad( )
-//x
-// @lengthOf(
-float32 Packet @lengthOf( falsey ) ,	char[ 10] falsey , @tag( 3  ) repeat zchar[
-    4294967296 ] repeatCount ,repeatCount`say ""hi""` , int16 u128 // `tick` ""quote"" 'q'
 ,
-char[ 3
-] crc
-@calculatedFrom( ""x y"" )
-, // trailing space 
-@leftPad
-    (
-    // " ++ [27880; 37322]%N ++ runes_of_ascii "
-    '\x00' )	match chars as i8i8 {
-    42 : charz// trailing space 
-,}
-, }  options {	} MetaData metadata { char[ 4294967296 ] i8i8	,
-    float
-    rootA , i64
-    packetx // " ++ [27880; 37322]%N ++ runes_of_ascii "
-, i8 // " ++ [27880; 37322]%N ++ runes_of_ascii "
-roots `crlf
-line`
-    ,
-    tag i64_  , uint8 Pad `" ++ [233]%N ++ runes_of_ascii "`
-, }root packet Header{
-u64 options1  `two words`
-    , @calculatedFrom(""a\\"" // trailing space 
-) // " ++ [128512]%N ++ runes_of_ascii " emoji
-i32 //	t
-x_y_z	@calculatedFrom( ""a\""b"")`tab	here` , match
-A as len { [ ""CRC32"" // " ++ [128512]%N ++ runes_of_ascii " emoji
-,""it's""  ] //	t
-: Z9_ ""a	b"" :
-    o ,
-} , match asx
-as pack {0 :	x_y_z , }
-    , char[] i64_ `{ , }`
-,
-    }
-MetaData stringy
-{ // trailing space 
-lengthOf
-// `tick` ""quote"" 'q'
-//	t
-o, string//
-u8x , f32 string_ `doc` ,}
-")).
-Eval vm_compute in ("<<<M13>>>" ++ check (runes_of_ascii "root
-    packet	roots{ // `tick` ""quote"" 'q'
-} options	{	asx =
-    ""\n"" ; x_y_z =
-3 ;rootA = ""CRC32""
-    ;float=char  T = false
-; }
-packet falsey {
-body { match u8x as /// triple
-string_{ [
-42,7 ,65535
-    ,
-    3 ,
-    42 ,7 , ""1""
-    , ""packet"" ]:
+	""" ++ [28040; 24687]%N ++ runes_of_ascii """ 	 // `tick` ""quote"" 'q'
+      ,
+
+""x y"" , """"  // a // b
+]  :	_x
+
+,	"""" 
+:len ,
+""\" ++ [233]%N ++ runes_of_ascii """
+	: // a // b
+
+i64_
+, //	t
+      }
+    , roots{ 
+char[1
+	] 	 // @lengthOf(
+  Header
+
+    @lengthOf(
+x_y_z ), 
+body
+u128 , 	 // `tick` ""quote"" 'q'
+  char[]
+float
+, chars
+
+@lengthOf( x
+
+    )
+`doc` ,
+
+} ,
+    crc`it's` 
     // `tick` ""quote"" 'q'
-    i64_ , [ ""abc""]
-    :  Foo ,	""a\\""
-    :
-roots ,
-    4294967296 :	stringy	}
-    , //x
-asx
-`{ , }` // " ++ [128512]%N ++ runes_of_ascii " emoji
-, i8
-charz@lengthOf( // trailing space 
-x_y_z)// trailing space 
-`a\` ,}
-    // @lengthOf(
-    , @tag( 65535 ) i64_ @lengthOf( tag )`u8 x,`
-// a // b
-//	t
-,Z9_@lengthOf( int )
-, @calculatedFrom( ""a\""b""
-)uint16  stringy @lengthOf( trueish ) , Logon	{string  Logon `say ""hi""` , packetx
-i64_ , match msg_type as	float
-{ ""\n"" : i64_,	[
-""" ++ [128512]%N ++ runes_of_ascii """
-    ]
-:
-metadata , // `tick` ""quote"" 'q'
-[
-// trailing space 
+  ,
+    @calculatedFrom(	""" ++ [128512]%N ++ runes_of_ascii """ ) BodyLength 
+`" ++ [28040; 24687; 31867; 22411]%N ++ runes_of_ascii "` 
+,
+
+    } packet	u128
+{
+
+lengthOf
+    ,	pack
+@lengthOf( u8x// c
+  )
+
+    `// not a comment`  // " ++ [27880; 37322]%N ++ runes_of_ascii "
+,@leftPad (' '
+	)float
+	{match
+asx  as
+
+charz{ 
+[ 
+4294967296  , """"
+    , 255,
+
+42
+,
+""1"" 
+] :u8x ""{,}"" :
+
+Foo 42 :
+leftPad [	// trailing space 
+255 
+, 
+	    // " ++ [128512]%N ++ runes_of_ascii " emoji
+
+""a\""b"" ,
+""it's"",
+4294967296
+	] :
+stringy
+,3
+:Header
+,} 
+,
+	match
+o// `tick` ""quote"" 'q'
+  as 
+Pad 
+    // trailing space 
+
+  {3	:
+    i64_	//x
+
+	, 
+} , repeat string msg_type ,
+	match packetx// " ++ [27880; 37322]%N ++ runes_of_ascii "
+as
+	lengthOf { 
+[""x y"" ,
+    """"
+	]
+:x_y_z 
+// " ++ [27880; 37322]%N ++ runes_of_ascii "
+
+  // c
+} ,
+
+} ,
+i64
+    float
+
+    , 
+repeat	zchar[ 3
+	]rootA  `crlf
+line`
+, 
+match
+	msg_type
+    as
+
+len { ""CRC32"" : MetaDataX  ,
+}	,f32
+
+A ,  char[ 
+0123456789
+
+]	chars	// " ++ [27880; 37322]%N ++ runes_of_ascii "
+	`{ , }`
+,/// triple
+
+@calculatedFrom(	""a\""b"")
+string	string_ `" ++ [233]%N ++ runes_of_ascii "`,
+}")).
+Eval vm_compute in ("<<<M156>>>" ++ check (runes_of_ascii "packet
+A { @rightPad ( '0' ) repeat	i8i8
+    { zchar[ 007 ]
+    packetx,
+    metadata `" ++ [28040; 24687; 31867; 22411]%N ++ runes_of_ascii "` ,	repeat float64  T ,}, @tag(0)Z9_ { int
+@lengthOf( tag
+)`line1
+line2`
+, repeat i8i8 // packet A { u8 x, }
+{  zchar[  00 ]stringy
+,
+repeat f32a{ match i64_ //
+as
+    string_ {[ 255 , ""{,}"" , 0123456789 ]
+: x_y_z
+, """ ++ [233]%N ++ runes_of_ascii "t" ++ [233]%N ++ runes_of_ascii """ : A
+, ""`tick`"" : len ,} , } ,
+    //
+    repeat u8x {u16 Z9_
+@calculatedFrom(""" ++ [128512]%N ++ runes_of_ascii """ ) `line1
+line2` ,f32 matchKey
+    ,} ,// " ++ [27880; 37322]%N ++ runes_of_ascii "
+float64 u8x `
+`,
+    },//
+} , // `tick` ""quote"" 'q'
+a1	{ repeat
+    // trailing space 
+    zchar[ 007
+] Foo `two words`
+,f32a	@calculatedFrom( """ ++ [28040; 24687]%N ++ runes_of_ascii """// trailing space 
+) ,int64 i64_  @calculatedFrom( // trailing space 
+""`tick`"" ) , } ,
+    @lengthOf(
+    // c
+    Header )	f32
+stringy @calculatedFrom(
+""x y"" )`say ""hi""` , Foo , float64
+BodyLength@calculatedFrom( // " ++ [27880; 37322]%N ++ runes_of_ascii "
+""packet"") ,
+    uint32
+// packet A { u8 x, }
+//
+int
+//
+//x
+, } packet string_{ @tag( 4294967296
+) repeat u
+`two words` , repeat zchar[ 0 ]
+BodyLength
+, @tag( 255 )/// triple
+int `line1
+line2` ,	uint8x`it's`,@tag(
+65535 )
+int8
+    metadata
+`" ++ [233]%N ++ runes_of_ascii "` ,/// triple
+match
+options1
+//x
 // " ++ [128512]%N ++ runes_of_ascii " emoji
-10, ""1""  ]
-:zchar ,
-}
-    , //x
-}
-    //x
-    , Packet
-    @calculatedFrom(""CRC32"" ), }
+as
+    float// packet A { u8 x, }
+{ 3: f32a , """ ++ [28040; 24687]%N ++ runes_of_ascii """
+    : charz
+,}
+,match uint8x	as
+string_ { ""CRC32"" //x
+:
+x
+, } , uint8	packetx`crlf
+line` ,
+@leftPad (
+)
+    zchar[
+0
+] Foo `say ""hi""`, }
 ")).
+Eval vm_compute in ("<<<M331>>>" ++ check (runes_of_ascii "packet o
+// trailing space 
+//x
+{	repeat pack stringy `two words`	,
+    char[	1 ]
+leftPad , }
+/// triple
+// @lengthOf(
+MetaData msg_type{ zchar[  1] Pad`" ++ [28040; 24687; 31867; 22411]%N ++ runes_of_ascii "` , uint32 //x
+charz//
+`a\`
+,  A u8x `// not a comment` ,
+    // `tick` ""quote"" 'q'
+    } packet
+options1
+    {@calculatedFrom( """ ++ [233]%N ++ runes_of_ascii "t" ++ [233]%N ++ runes_of_ascii """
+) @rightPad( )
+Pad
+@lengthOf(// packet A { u8 x, }
+pack ) `` ,
+match
+    A
+as
+    a1 { 255  :
+msg_type  ,
+}
+,
+// " ++ [27880; 37322]%N ++ runes_of_ascii "
+//
+@lengthOf( tag )  @tag( 00 )@rightPad(' '
+) match Header	as f32a { """" : float , } // @lengthOf(
+, char[] T@calculatedFrom(
+    // packet A { u8 x, }
+    ""packet""	) , repeat asx /// triple
+msg_type`crlf
+line` , @calculatedFrom( ""\" ++ [233]%N ++ runes_of_ascii """ ) @tag( // trailing space 
+7
+)
+int64 o
+`line1
+line2`,
+    // trailing space 
+    } // " ++ [128512]%N ++ runes_of_ascii " emoji
+root
+packet// packet A { u8 x, }
+crc  { int8
+body
+@lengthOf( matchKey ) `two words` ,
+    //	t
+    @lengthOf( u8x )
+zchar[
+0123456789
+    ] i8i8,
+} MetaData  a1 { falsey _x
+`
+` ,
+char[] body`" ++ [28040; 24687; 31867; 22411]%N ++ runes_of_ascii "` ,
+// packet A { u8 x, }
+//
+zchar[ 42] trueish `
+` , float trueish,  metadata //x
+o `{ , }`, }")).
+Eval vm_compute in ("<<<M1938>>>" ++ check (runes_of_ascii "
+
+  options{
+StringPrefixLenType
+
+    = 
+u64 ; 
+ArrayPrefixLenType =u32 ;
+FixedStringPadFromLeft	=false 
+;}
+packet  Party
+{
+
+zchar[
+
+7  ] OrderId
+
+    ,
+    InTail6
+	{
+
+repeat	char[ 1  ]
+
+msgKind ,  char[3
+	]Tail ,char[3  ] 
+Flags
+
+    ,	i16 tag7 
+, },
+    @rightPad
+
+(	'0' )char[
+12 
+]
+clOrdID,
+
+} packet
+
+    Quote  { @leftPad
+    (
+'0'
+    ) char[	11 ] price,
+repeat  InCount7	{ i32 x
+    ,	Party,	u8 Ref
+	, u8 tag7
+	,},char[] seqNo ,
+
+    Party ,	}
+packet  Logon
+	{ @rightPad
+    ('\x00' ) char[5]Note	,
+i16
+
+    sym
+
+    ,
+
+    InPrice72{
+	char[9 
+]
+
+Ref 
+, zchar[
+1  ]  venue 
+,  }
+,
+
+    char[]
+clOrdID, }root	packet Reject{
+
+    repeat
+	Logon
+    , @leftPad  (
+' '
+)	char[ 
+4
+	]
+
+    seqNo, 
+zchar[
+
+    5
+
+]
+
+Acct  ,  u32	x
+,
+u16	f1 @lengthOf( Body
+),	match x
+as Body
+
+{ [
+	169
+,
+74
+    ]:  Quote,
+    45 
+:
+	Party , 7
+
+    :
+
+    Logon,
+
+    }
+,
+	}")).
 Eval vm_compute in ("<<<M1321>>>" ++ check (runes_of_ascii "// top
 packet // c0
 P1
@@ -356,451 +541,479 @@ P1 // c62
 , }
     // c66
 ")).
-Eval vm_compute in ("<<<M312>>>" ++ check (runes_of_ascii "packet // packet A { u8 x, }
-tag
-    { @calculatedFrom(""x y"" ) lengthOf{ options1
-    `
-`,} , @tag( 7 )
-int {
-//x
-// " ++ [27880; 37322]%N ++ runes_of_ascii "
-char[ 007  ] // `tick` ""quote"" 'q'
-calculatedFrom @lengthOf(
-metadata
-)  , tag @lengthOf( falsey
-) ,	f32
-    // " ++ [128512]%N ++ runes_of_ascii " emoji
-    calculatedFrom
-// `tick` ""quote"" 'q'
-//
-`{ , }` , i8i8
-    {string
-    i64_ @lengthOf( asx )	`it's` , u @calculatedFrom(  ""\n"" ) ,
-    } ,	}
-    ,
-    @calculatedFrom(""abc"" //
-)  @leftPad ( ' '
-    )  uint64 calculatedFrom
-,// " ++ [27880; 37322]%N ++ runes_of_ascii "
-} packet o { Header ,
-    @lengthOf(	i8i8
-) float32
-    Pad // c
-,char[ 42 ]
-leftPad
-    @calculatedFrom(	"""" // " ++ [128512]%N ++ runes_of_ascii " emoji
-)
-    , @tag( 255 )
-body
-    u , } packet lengthOf{
-// packet A { u8 x, }
-// c
-@tag(
-    255 //x
-) char[ 0123456789 ] o
-`
-` , }
+Eval vm_compute in ("<<<M1799>>>" ++ check (runes_of_ascii "
 
-")).
-Eval vm_compute in ("<<<M288>>>" ++ check (runes_of_ascii "// packet A { u8 x, }
-MetaData
-    _x
-{ //
-char[] len
-    ,}options
-// @lengthOf(
-//
-{ repeatCount =""""
-    ; }// c
-root packet chars {
-    char[ 255
-]u8x,	repeat
-/// triple
-// c
-string repeatCount
-`" ++ [28040; 24687; 31867; 22411]%N ++ runes_of_ascii "` ,
-repeat zchar[ 10
+  root packet matchKey
+
+{ match 
+Foo as 
+Z9_ 
+{ // c
+  [
+	""x y""
+    , ""1""  ,
+007, 7
+]:
+
+    pack	,
+
+""`tick`""
+    : 
+u128	,
+    ""a	b"" :  msg_type,
+	[  
+      //
+
+  //
+	  00
+,
+65535
 ]
-string_ , @tag( // trailing space 
-255
-    ) i8i8{// packet A { u8 x, }
-options1
-calculatedFrom `u8 x,`
-,
-    i64
-len,
-    roots // c
-{ // @lengthOf(
-repeat
-    // a // b
-    i64_ zchar //
-,
-    } ,
-    }
-, match chars as Packet	{
-""a\""b"": Pad
-,[ ""{,}""
-    ]
+
+: a1
+,""it's""
 :
-calculatedFrom // a // b
-,
-""" ++ [233]%N ++ runes_of_ascii "t" ++ [233]%N ++ runes_of_ascii """
-//x
-// `tick` ""quote"" 'q'
-: uint8x ,[ // packet A { u8 x, }
-""`tick`"" ,0
-    , 42
-    ] : _x[ 0123456789	, ""\" ++ [233]%N ++ runes_of_ascii """
-    ] :
-i8i8,	} ,	}
-")).
-Eval vm_compute in ("<<<M208>>>" ++ check (runes_of_ascii "packet // packet A { u8 x, }
-u8x {}root packet
-    matchKey{
-repeat zchar[ 0123456789 ] // packet A { u8 x, }
-int , char[
-// `tick` ""quote"" 'q'
-// a // b
-4294967296 ]
-asx `{ , }`
-    ,
-repeat i8i8, repeat Packet { repeat
-    leftPad {	f32 u128
-@lengthOf(As ), body`two words` ,// packet A { u8 x, }
-rootA Pad , } , char[ 00
-] msg_type `tab	here` // " ++ [128512]%N ++ runes_of_ascii " emoji
-,
-    repeat
-    //x
-    i64_ `doc` , zchar x_y_z ,}
-,
-}
-root
-packet int {
-repeat f32a {repeat f32a  asx
-`u8 x,` ,} ,@lengthOf(
-// @lengthOf(
-//	t
-msg_type// packet A { u8 x, }
-) body ,
-// c
-//
-Z9_ // c
-zchar `a\` //x
-, } //x")).
-Eval vm_compute in ("<<<M1568>>>" ++ check (runes_of_ascii "  // top
-	  options 
-    // c0
-  {
-// c1
-      f32a
 
-    // c2
+Foo 
+,	// " ++ [128512]%N ++ runes_of_ascii " emoji
+	[	//x
 
-= 
-    // c3
-	  0
-    // c4
-  } 
-// c5
+""""
+
+]	: u , }
+	,}	packet calculatedFrom	// c
+  { msg_type 
+{ T @calculatedFrom(
+""\n"" )
+	, float64
+	i8i8 ,
+	As
+
+    `
+` ,u32 rootA 
+@lengthOf( 
+    // c
+	// `tick` ""quote"" 'q'
+    float )
+, }  ,	}
 packet
-        // c6
+// " ++ [27880; 37322]%N ++ runes_of_ascii "
+  	x_y_z
+{  @tag(	//x
+    	0
+) i64_
+	    // " ++ [27880; 37322]%N ++ runes_of_ascii "
+  	@lengthOf(  
+      //
+	MetaDataX
 
-trueish
+),	}  packet A 
+{ @calculatedFrom( ""a\\"")
 
-// c7
-{ 
-  // c8
-	}
-	// c9
-	MetaData 
-	    // c10
+@calculatedFrom( ""abc""	)_x
 
-  _x
-// c11
-
-{ 
-  // c12
-    char[ 
-// c13
-	0123456789
-        // c14
-  ] 
-    // c15
-
-zchar
-	// c16
-  , 
-    // c17
-  string  
-      // c18
-crc 
-
-    // c19
-  	, 
-        // c20
-
-	char[
-    // c21
-      1 
-  // c22
-	  ] 
-	    // c23
-options1
-    // c24
-,  
-  // c25
-	uint8 
-
-// c26
-  repeatCount
-// c27
+    u	`say ""hi""` 
 ,
-	// c28
 	} 
-  // c29")).
-Eval vm_compute in ("<<<M1237>>>" ++ check (runes_of_ascii "// top
-options // c0
-{ // c1
-zchar // c2
-= // c3
-true // c4
-; // c5
-Pad // c6
-= // c7
-char[ // c8
-00 // c9
-] // c10
-a1 // c11
-= // c12
-uint32 // c13
-BodyLength // c14
-= // c15
-true // c16
-; // c17
-} // c18
-root // c19
-packet // c20
-T // c21
-{ // c22
-@lengthOf( // c23
-repeatCount // c24
-) // c25
-@tag( // c26
-1 // c27
-) // c28
-@calculatedFrom( // c29
-""a	b"" // c30
-) // c31
-string // c32
-stringy // c33
-@calculatedFrom( // c34
-""\n"" // c35
-) // c36
-`u8 x,` // c37
-, // c38
-} // c39
+options
+    // `tick` ""quote"" 'q'
+	{// trailing space 
+  	metadata
+	=""a\\""
+; // a // b
+}
+
 ")).
-Eval vm_compute in ("<<<M1430>>>" ++ check (runes_of_ascii "  options{LittleEndian 
-=
-
-    false;
-StringPrefixLenType=	u8 ;
-ArrayPrefixLenType=
-	u64 ;
-    FixedStringPadFromLeft	=
-
-false;
-
-FixedStringPadChar
-=	' ';}
-
-    packet Reject{
-
-    repeat char[
-
-    4 ]
-seqNo
-	,
-string
-    Px
-
-    , }	root
-
-    packet
-    Trade{
-	@rightPad 
-('0' )
-char[
-2
-
-    ]
-
-msgKind
-
-    , repeat
-
-f64
-price ,
-
-InAcct79
+Eval vm_compute in ("<<<M184>>>" ++ check (runes_of_ascii "packet options1{@leftPad	( '0' )	@rightPad ( // a // b
+'\x00'
+) @tag(
+255
+) /// triple
+repeat string As `
+`,
+@calculatedFrom(
+"""" )@calculatedFrom(//x
+""x y"" )
+a1
+{ Foo {trueish { tag
+@lengthOf(  i8i8 ) `doc`
+, }
+, zchar[
+00 ] f32a @lengthOf( calculatedFrom) , repeat
+zchar[ 1
+    ] stringy`{ , }`
+    , },uint64  repeatCount	@lengthOf(// `tick` ""quote"" 'q'
+asx
+    ) , char[ 42
+] lengthOf @calculatedFrom(// c
+""packet""), char[ 10 ] calculatedFrom @lengthOf( BodyLength ), } ,
+asx`// not a comment`,  } options { matchKey =""" ++ [128512]%N ++ runes_of_ascii """ falsey = ""a\""b"" ; A // a // b
+= ""CRC32"" msg_type
+    =
+    //x
+    """ ++ [233]%N ++ runes_of_ascii "t" ++ [233]%N ++ runes_of_ascii """	; } MetaData o//	t
 {
-
-    repeat Reject ,
-    zchar[	7  ] OrderId 
-, 
-}	,
-
-Reject , 
-}
-
-")).
-Eval vm_compute in ("<<<M1332>>>" ++ check (runes_of_ascii "options {
-    LittleEndian = false;
-    StringPrefixLenType = u8;
-    ArrayPrefixLenType = u64;
-    FixedStringPadFromLeft = false;
-    FixedStringPadChar = ' ';
-}
-packet Reject {
-    repeat char[4] seqNo,
-    string Px,
-}
-root packet Trade {
-    @rightPad('0') char[2] msgKind,
-    repeat f64 price,
-    InAcct79 {
-        repeat Reject,
-        zchar[7] OrderId,
-    },
-    Reject,
-}
-")).
-Eval vm_compute in ("<<<M1459>>>" ++ check (runes_of_ascii "MetaData Header {
-}
-
-packet crc {
-    match zchar as leftPad {
-        7 : As,
-        0 : Packet,
-        [00] : Pad,
-        //x
-        //x
-        ""// no comment"" : calculatedFrom,
-        3 : string_,
-    },
-    falsey packetx `crlf
-    line`,// " ++ [27880; 37322]%N ++ runes_of_ascii "
-    @tag(42)
-    repeat u64 packetx,
-    @calculatedFrom(""1"")
-    repeat u16 calculatedFrom,
-}")).
-Eval vm_compute in ("<<<M79>>>" ++ check (runes_of_ascii "packet	Pad //
-{ u32 i64_
-@lengthOf(u8x) `tab	here` , T,
-@tag(
-1) @calculatedFrom(	""CRC32""
-)
-    @leftPad ()
-    match stringy as lengthOf	{[ 255  ,	7
-    ,
-""CRC32""
-,""a	b"" , """ ++ [233]%N ++ runes_of_ascii "t" ++ [233]%N ++ runes_of_ascii """ ,// c
-""a\""b""
-    , ""\n"" ]: falsey  , /// triple
-} ,string i8i8// trailing space 
-@calculatedFrom( """ ++ [128512]%N ++ runes_of_ascii """
-    ) ,packetx, } // c")).
-Eval vm_compute in ("<<<M1948>>>" ++ check (runes_of_ascii "options {
-    A = i16;
-}
-
-/// triple
-root packet rootA {
-    @tag(7)
-    int16 pack,
-    Logon @calculatedFrom(""a\""b"") `{ , }`,
-    @rightPad('\x00')
-    //
-    //
-    char[7] options1 `tab	here`,
-    @calculatedFrom(""" ++ [233]%N ++ runes_of_ascii "t" ++ [233]%N ++ runes_of_ascii """)
-    int @lengthOf(Packet) `crlf
-        line`,
-}")).
-Eval vm_compute in ("<<<M139>>>" ++ check (runes_of_ascii "packet//x
-x_y_z {rootA @lengthOf( o ) `two words` ,} MetaData f32a{
-trueish
-    // packet A { u8 x, }
-    x , }
-    MetaData body
-    { u128 pack , f64
-    // @lengthOf(
-    float	, char[ 65535
+} packet
+Pad{  }")).
+Eval vm_compute in ("<<<M260>>>" ++ check (runes_of_ascii "packet metadata{ @rightPad
+    (	) zchar[
 //	t
-/// triple
-] tag `" ++ [233]%N ++ runes_of_ascii "`// c
-,  } // " ++ [128512]%N ++ runes_of_ascii " emoji")).
-Eval vm_compute in ("<<<M1703>>>" ++ check (runes_of_ascii "packet matchKey {
+// `tick` ""quote"" 'q'
+0123456789] i64_
     // @lengthOf(
-    @lengthOf(a1)
-    string_ T `" ++ [28040; 24687; 31867; 22411]%N ++ runes_of_ascii "`,//
+    @calculatedFrom( ""\n"" ) , @leftPad (
+    ' '// " ++ [27880; 37322]%N ++ runes_of_ascii "
+) zchar[ // `tick` ""quote"" 'q'
+255
+]
+    MetaDataX `{ , }`// a // b
+, @rightPad (
+' ' )@calculatedFrom(""abc"" ) // " ++ [128512]%N ++ runes_of_ascii " emoji
+@lengthOf(
+matchKey
+// `tick` ""quote"" 'q'
+// `tick` ""quote"" 'q'
+)
+repeat char[ 42 ] packetx // packet A { u8 x, }
+`" ++ [233]%N ++ runes_of_ascii "` ,  trueish@calculatedFrom( ""packet"" )
+`a\` , matchKey int `" ++ [28040; 24687; 31867; 22411]%N ++ runes_of_ascii "` ,	@tag(
+    // c
+    0
+) len{ char[65535 ] Header,
+}
+,@lengthOf( f32a ) zchar[	10  ]
+    trueish `crlf
+line` ,  }
+")).
+Eval vm_compute in ("<<<M1736>>>" ++ check (runes_of_ascii "packet u128 {
+    // trailing space 
+    string Header `say ""hi""`,
+    repeat crc f32a,
+    char[10] _x,
+    @calculatedFrom(""x y"")
+    repeat charz {
+        Logon @lengthOf(T) `crlf
+        line`,
+        repeat char[0123456789] Z9_ `crlf
+        line`,
+    },
+    match Packet as float {
+        1 : lengthOf,
+    },
+    MetaDataX,
+    match x as u8x {
+        10 : crc,
+    },
 }
 
-packet body {
-    f32 _x,
-    packetx @lengthOf(options1) ``,
-    @leftPad(' ')
-    i16 crc,
-    @calculatedFrom(""" ++ [128512]%N ++ runes_of_ascii """)
-    Pad,
-}//")).
-Eval vm_compute in ("<<<M1805>>>" ++ check (runes_of_ascii "packet A {
-    match k as n {
-        ""x\
-        y"" : B,
-        [""x\
-        y"", 1] : C,
+root packet Header {
+    @calculatedFrom(""{,}"")
+    a1 {
+        char[007] pack,
+        stringy zchar,
+        repeat char[] o `it's`,
+    },
+}")).
+Eval vm_compute in ("<<<M1392>>>" ++ check (runes_of_ascii "packet Logon {
+    repeatCount {
+        BodyLength `crlf
+                line`,
+    },
+    zchar a1 `u8 x,`,
+    match Foo as Foo {
+        ""\n"" : i8i8,
+        [""abc"", ""CRC32""] : crc,
         [
-            1, 2, 3, 4, 5,
-            ""x\
-            y""
-        ] : D,
+            3, ""x y"", 42, ""`tick`"", 1,
+            ""a\""b"", ""CRC32"", 255
+        ] : repeatCount,
+        [
+            1, 007, ""\n"", 007, 7,
+            ""// no comment"", 255
+        ] : uint8x,
+        00 : f32a,
     },
+    // a // b
+    uint16 Pad @lengthOf(uint8x) `doc`,
 }")).
-Eval vm_compute in ("<<<M152>>>" ++ check (runes_of_ascii "packet T {
-int u ,
-@calculatedFrom( ""\" ++ [233]%N ++ runes_of_ascii """ ) // `tick` ""quote"" 'q'
-repeat// @lengthOf(
-string	x_y_z// a // b
-,
-uint32// `tick` ""quote"" 'q'
-int `crlf
-line` , }
+Eval vm_compute in ("<<<M1569>>>" ++ check (runes_of_ascii "
+// top
+	  options  // c0
+	{  // c1
+    	f32a// c2
+      = 	 // c3
+0  // c4
+	} 	 // c5
+
+packet// c6
+	trueish// c7
+
+	{  // c8
+
+}// c9
+  MetaData 	 // c10
+  _x // c11
+	{// c12
+    char[  // c13
+	0123456789 // c14
+    ] // c15
+	zchar // c16
+,  // c17
+    string 	 // c18
+		crc 	 // c19
+
+,// c20
+	  char[	// c21
+
+1  // c22
+]// c23
+
+	options1	// c24
+  ,  // c25
+    uint8  // c26
+    	repeatCount	// c27
+,  // c28
+  }// c29
 ")).
-Eval vm_compute in ("<<<M1864>>>" ++ check (runes_of_ascii "// @len'1'gthOf(
-packet i8i8 {
-    u128 o,
+Eval vm_compute in ("<<<M76>>>" ++ check (runes_of_ascii "packet rootA { repeat uint16 stringy `" ++ [233]%N ++ runes_of_ascii "`
+,body
+@lengthOf( stringy ) , int32 matchKey // " ++ [27880; 37322]%N ++ runes_of_ascii "
+,
+    @lengthOf(roots)@calculatedFrom( ""a\""b""
+) @leftPad(' ') i64
+    leftPad
+@lengthOf( repeatCount )
+`u8 x,` , //	t
+f64 len
+    @lengthOf( BodyLength// trailing space 
+) `// not a comment` , @rightPad
+(
+)
+    @leftPad ( '0')repeat
+string len
+, // c
+char[] chars `two words`	, } //	t")).
+Eval vm_compute in ("<<<M1647>>>" ++ check (runes_of_ascii "
+root
+    packet
+    Logon 
+{
+@rightPad
+    ( // @lengthOf(
+
+  '0' )
+	repeat 
+charz  // " ++ [27880; 37322]%N ++ runes_of_ascii "
+
+  { 	 // " ++ [128512]%N ++ runes_of_ascii " emoji
+
+Z9_
+
+    `{ , }`
+    ,string string_
+`say ""hi""`,
+
+repeat
+
+int8 
+rootA
+    , match
+    Foo as  pack	{  [
+
+    42
+    // c
+	/// triple
+		, 0
+    ]
+: u,""a\""b""
+:
+
+int
+	,	}
+
+// c
+	// `tick` ""quote"" 'q'
+    	,
+    }
+, 
+}
+")).
+Eval vm_compute in ("<<<M1277>>>" ++ check (runes_of_ascii "// top
+options
+    // c0
+{
+    // c1
+LittleEndian // c2
+=
+    // c3
+true
+    // c4
+;
+    // c5
+}
+    // c6
+root // c7a
+  // c7b
+packet P // c9a
+  // c9b
+{ u16
+    // c11
+a // c12
+, // c13
+u32 // c14a
+  // c14b
+Sum
+    // c15
+@calculatedFrom( ""CRC32"" ) // c18a
+  // c18b
+,
+    // c19
+} // c20a
+  // c20b
+")).
+Eval vm_compute in ("<<<M1821>>>" ++ check (runes_of_ascii "packet MDSnapshotZZ {
+u8
+
+a	, }  packet
+
+OrderACK
+	{ u16 b ,
+
+    }
+
+packet	HTTPServerInfo
+{ string  s
+    , 
 }
 
-options {
-    MetaDataX = true;
-    BodyLength = ""packet""
-    x_y_z = 007
-    crc = ""abc"";
-    msg_type = i16
-}")).
-Eval vm_compute in ("<<<M1709>>>" ++ check (runes_of_ascii "packet calculatedFrom {
-    uint8x {
-        body `line1
-        line2`,
-        string crc @lengthOf(uint8x),
-        char[] As @lengthOf(Pad),
-    },
-}")).
-Eval vm_compute in ("<<<M545>>>" ++ check (runes_of_ascii "packet uint8x
-{ match' pack
+    root
+	packet  FIXMsg {u8
+
+    KType
+,
+	MDSnapshotZZ  ,
+
+repeat OrderACK
+,match	KType
+as
+    Body
+    {	1 : HTTPServerInfo 
+,
+2:	OrderACK,}	, }
+")).
+Eval vm_compute in ("<<<M214>>>" ++ check (runes_of_ascii "MetaData tag {body Packet	, int16 // @lengthOf(
+body // `tick` ""quote"" 'q'
+, f32a uint8x , } packet falsey {
+x { char[ 7 ] lengthOf , char[] o
+    `say ""hi""`
+    // `tick` ""quote"" 'q'
+    ,
+//
+/// triple
+}
+,}
+// `tick` ""quote"" 'q'
+")).
+Eval vm_compute in ("<<<M1822>>>" ++ check (runes_of_ascii "
+
+  // top
+  root 	 // c0
+    	packet
+	P // c2
+  {// c3
+hdr 
+  // c4
+
+{ 
+    // c5
+	u8 // c6
+  a  // c7a
+// c7b
+	,  
+      // c8
+  }
+, // c10
+	u8 	 // c11
+  	x // c12a
+
+// c12b
+,
+
+    }
+    // c14
+")).
+Eval vm_compute in ("<<<M1325>>>" ++ check (runes_of_ascii "
+root	packet
+	Frame { u8
+    K , 
+Logon
+	first  ,
+match
+
+    K 
+as
+Body{1 : Logon,
+    2 :
+Logout  ,
+	}	,
+} 
+packet
+Logon
+	{
+string user ,
+} packet
+Logout
+
+{ u16 
+reason , }")).
+Eval vm_compute in ("<<<M1502>>>" ++ check (runes_of_ascii "
+// @lengthOf(
+	packet
+
+i8i8
+	{
+	u128 o
+    ,
+}	options
+{MetaDataX	=
+true
+
+;
+BodyLength = 
+""packet""x_y_z
+
+    = 007 crc //x
+	=
+""abc""
+msg_type = 
+i16 
+}
+
+")).
+Eval vm_compute in ("<<<M511>>>" ++ check (runes_of_ascii "packet uint8x
+{ match pack
+    as msg_type	{
+    0123456789 :	float
+}
+,
+} packet //	t
+a1
+    { } options {packetx
+    = '\x00'	; u128 u128= ""a	b""  ; }
+")).
+Eval vm_compute in ("<<<M486>>>" ++ check (runes_of_ascii "packet uint8x
+{ match pack
+    as msg_type	{
+    0123456789 :	float
+}
+,
+} packet //	t
+a1
+    { } options { {packetx
+    = '\x00'	; u128= ""a	b""  ; }
+")).
+Eval vm_compute in ("<<<M407>>>" ++ check (runes_of_ascii "packet uint8x
+{ pack match
     as msg_type	{
     0123456789 :	float
 }
@@ -810,270 +1023,264 @@ a1
     { } options {packetx
     = '\x00'	; u128= ""a	b""  ; }
 ")).
-Eval vm_compute in ("<<<M498>>>" ++ check (runes_of_ascii "packet uint8x
-{ match pack
-    as msg_type	{
-    0123456789 :	float
+Eval vm_compute in ("<<<M1803>>>" ++ check (runes_of_ascii "
+MetaData leftPad	{ 
+chars	MetaDataX,
 }
-,
-} packet //	t
-a1
-    { } options {packetx
-    ; '\x00'	; u128= ""a	b""  ; }
-")).
-Eval vm_compute in ("<<<M415>>>" ++ check (runes_of_ascii "packet uint8x
-{ match pack
-     msg_type	{
-    0123456789 :	float
+    packet
+
+    repeatCount {
+char[255	]
+
+uint8x `" ++ [233]%N ++ runes_of_ascii "`
+,}
+
+MetaData pack 
+    // c
+      {
+	As
+
+Foo ,
+
 }
-,
-} packet //	t
-a1
-    { } options {packetx
-    = '\x00'	; u128= ""a	b""  ; }
+
 ")).
-Eval vm_compute in ("<<<M678>>>" ++ check (runes_of_ascii "// @lengthOf(
+Eval vm_compute in ("<<<M698>>>" ++ check (runes_of_ascii "// @lengthOf(
 packet i8i8 { u128 o , }
 options { MetaDataX = true;
-    BodyLength =""packet"" x_y_z= 007
-crc //x
-= ""abc"" ;
-    < msg_type =
-i16 }")).
-Eval vm_compute in ("<<<M685>>>" ++ check (runes_of_ascii "// @lengthOf(
-packet i8i8 { u128 o , }
-options { MetaDataX = true;
-    BodyLength =""packet"" x_y_z= 007
-crc //x
-= ""abc"" ;
-    = msg_type
-i16 }")).
-Eval vm_compute in ("<<<M706>>>" ++ check (runes_of_ascii "// @lengthOf(
-packet i8i8 { u128 o , }
-options { MetaDataX = ;
     BodyLength =""packet"" x_y_z= 007
 crc //x
 = ""abc"" ;
     msg_type =
-i16 }")).
-Eval vm_compute in ("<<<M1564>>>" ++ check (runes_of_ascii "MetaData
-
-leftPad 
-{chars
-MetaDataX ,} packet
-	repeatCount
-
-{  char[255
-    ] uint8x `" ++ [233]%N ++ runes_of_ascii "`
+i16 i16 }")).
+Eval vm_compute in ("<<<M460>>>" ++ check (runes_of_ascii "packet uint8x
+{ match pack
+    as msg_type	{
+    0123456789 :	float
+}
 ,
-	} MetaData pack 	 // c
-  { As Foo 
-, }
+}  //	t
+a1
+    { } options {packetx
+    = '\x00'	; u128= ""a	b""  ; }
 ")).
-Eval vm_compute in ("<<<M1631>>>" ++ check (runes_of_ascii "root packet lengthOf {
-    @leftPad(' ')
-    repeat char MetaDataX,
+Eval vm_compute in ("<<<M185>>>" ++ check (runes_of_ascii "root packet lengthOf{ @leftPad
+    (
+' '// c
+)
+repeat char MetaDataX
+,
+}MetaData
+Pad {
+msg_type rootA// trailing space 
+`// not a comment`, }")).
+Eval vm_compute in ("<<<M524>>>" ++ check (runes_of_ascii "packet uint8x
+{ match pack
+    as msg_type	{
+    0123456789 :	float
+}
+,
+} packet //	t
+a1
+    { } options {packetx
+    = '\x00'	; u128=")).
+Eval vm_compute in ("<<<M1741>>>" ++ check (runes_of_ascii "packet	A
+
+    {match 
+k  as n
+{  [ 1
+
+    ,
+	""bb""
+	,	007 ,""d"" 
+,	5
+,""f""
+
+,
+7
+,
+    ""h""
+,
+9
+
+, ""j""
+
+    ] :  B
+	2 :
+
+C
+} ,}
+")).
+Eval vm_compute in ("<<<M1940>>>" ++ check (runes_of_ascii "packet A
+	{ match k 
+as 
+n
+	{ [ 1  ,
+
+22
+    ,  ""c c"" ,
+
+    4
+
+, 
+5 ,""f""  ,  7 ,	8
+	, 
+""i"" , 10]:	B
+
+2
+    :
+	C } ,
 }
 
-MetaData Pad {
-    msg_type rootA `// not a comment`,
-}")).
-Eval vm_compute in ("<<<M1141>>>" ++ check (runes_of_ascii "// c
-MetaData leftPad { chars MetaDataX , } packet repeatCount { char[ 255 ] uint8x `" ++ [233]%N ++ runes_of_ascii "` , } MetaData pack { As Foo , }")).
-Eval vm_compute in ("<<<M1174>>>" ++ check (runes_of_ascii "MetaData leftPad { chars MetaDataX , } packet repeatCount { char[ 255 ] uint8x `" ++ [233]%N ++ runes_of_ascii "` ,
+")).
+Eval vm_compute in ("<<<M1148>>>" ++ check (runes_of_ascii "MetaData leftPad {
 // c
-} MetaData pack { As Foo , }")).
-Eval vm_compute in ("<<<M1319>>>" ++ check (runes_of_ascii "
-packet FooBar  {  u8
-	a , }
-    packet  foo_bar
-
-    {  u16 
-b
-
-    , } root
-	packet R{FooBar , foo_bar
-,	}
-")).
-Eval vm_compute in ("<<<M1518>>>" ++ check (runes_of_ascii "packet A  {
-match
-    k	as
-
-    n {
-[
-""a""
-,
-
-    22 , ""c c""
-, 4
-,
-""e"" ] : B
-,
-
-    2
-	: C
-	} , }
-")).
-Eval vm_compute in ("<<<M944>>>" ++ check (runes_of_ascii "packet A {
+chars MetaDataX , } packet repeatCount { char[ 255 ] uint8x `" ++ [233]%N ++ runes_of_ascii "` , } MetaData pack { As Foo , }")).
+Eval vm_compute in ("<<<M1180>>>" ++ check (runes_of_ascii "MetaData leftPad { chars MetaDataX , } packet repeatCount { char[ 255 ] uint8x `" ++ [233]%N ++ runes_of_ascii "` , } MetaData pack
+// c
+{ As Foo , }")).
+Eval vm_compute in ("<<<M893>>>" ++ check (runes_of_ascii "packet A {
+  match k as n {
+    [""a"", ""bb"", ""c c"", ""d"", ""e"", ""f"", ""g"", ""h"", ""i"", ""j"", ""k""] : B,
+    2 : C
+  },
+}")).
+Eval vm_compute in ("<<<M908>>>" ++ check (runes_of_ascii "packet A {
+  match k as n {
+    [1, ""bb"", 007, ""d"", 5, ""f"", 7, ""h"", 9, ""j"", 11, ""l""] : B,
+    2 : C
+  },
+}")).
+Eval vm_compute in ("<<<M895>>>" ++ check (runes_of_ascii "packet A {
+  match k as n {
+    [1, ""bb"", 007, ""d"", 5, ""f"", 7, ""h"", 9, ""j"", 11] : B,
+    2 : C
+  },
+}")).
+Eval vm_compute in ("<<<M932>>>" ++ check (runes_of_ascii "packet A {
     Inner {
-        u8 x `a
-
-b`,
+        u8 x `
+`,
         Deep {
-            u8 y `a
-
-b`,
+            u8 y `
+`,
         },
     },
 }")).
-Eval vm_compute in ("<<<M1304>>>" ++ check (runes_of_ascii "
-packet order_item
-
-{  u8
-a
-
-    , } root
-packet
-
-    new_order{ order_item
-	,  u8
-x ,
-
-}
-
-")).
-Eval vm_compute in ("<<<M624>>>" ++ check (runes_of_ascii "
+Eval vm_compute in ("<<<M615>>>" ++ check (runes_of_ascii "
 packet
     asx {match u128 as lengthOf
 {
 //	t
 // `tick` ""quote"" 'q'
 255 : x ,
-    } ,	repeat")).
-Eval vm_compute in ("<<<M608>>>" ++ check (runes_of_ascii "
+    match ,	}")).
+Eval vm_compute in ("<<<M842>>>" ++ check (runes_of_ascii "packet A {
+  match k as n {
+    [""a"", ""bb"", ""c c"", ""d"", ""e"", ""f"", ""g""] : B
+    2 : C
+  },
+}")).
+Eval vm_compute in ("<<<M619>>>" ++ check (runes_of_ascii "
 packet
     asx {match u128 as lengthOf
 {
 //	t
 // `tick` ""quote"" 'q'
-255 : x , ,
-    } ,	}")).
-Eval vm_compute in ("<<<M579>>>" ++ check (runes_of_ascii "
+255 : x ,
+    } }	,")).
+Eval vm_compute in ("<<<M592>>>" ++ check (runes_of_ascii "
 packet
-    asx {match u128 lengthOf as
+    asx {match u128 as lengthOf
 {
 //	t
 // `tick` ""quote"" 'q'
-255 : x ,
+ : x ,
     } ,	}")).
-Eval vm_compute in ("<<<M828>>>" ++ check (runes_of_ascii "packet A {
+Eval vm_compute in ("<<<M837>>>" ++ check (runes_of_ascii "packet A {
   match k as n {
-    [""a"", ""bb"", ""c c"", ""d"", ""e"", ""f""] : B,
+    [""a"", ""bb"", 007, ""d"", ""e"", 66] : B
     2 : C
   },
 }")).
-Eval vm_compute in ("<<<M1302>>>" ++ check (runes_of_ascii "packet order_item {
-    u8 a,
-}
-root packet new_order {
-    order_item,
-    u8 x,
-}
-")).
-Eval vm_compute in ("<<<M1273>>>" ++ check (runes_of_ascii "options {
-    FixedStringPadFromLeft = true;
-}
-root packet P {
-    char[4] z,
-}
-")).
-Eval vm_compute in ("<<<M1876>>>" ++ check (runes_of_ascii "  root
-	packet
-
-P{ 
-u8
-
-    s_u8 
-, 
-repeat
-    u8
-
-r_u8
-,	u16
-
-b_len
-	,} ")).
-Eval vm_compute in ("<<<M1908>>>" ++ check (runes_of_ascii "  root packet	P{  u16 
-a
-,  u32
-    Sum @calculatedFrom(
-	""CRC32"") 
-,} ")).
-Eval vm_compute in ("<<<M1280>>>" ++ check (runes_of_ascii "root packet P {
-    u16 a,
-    u32 Sum @calculatedFrom(""CRC32""),
-}
-")).
-Eval vm_compute in ("<<<M785>>>" ++ check (runes_of_ascii "packet A {
-  match k as n {
-    [""a"", 22] : B
-    2 : C
-  },
+Eval vm_compute in ("<<<M916>>>" ++ check (runes_of_ascii "packet A { Inner { match k as n { [1,22,007,4,5,66,7,8,9,10,11,12] : B, }, }, }")).
+Eval vm_compute in ("<<<M1566>>>" ++ check (runes_of_ascii "packet A {
+    @tag(1)
+    // a
+    @leftPad('0')
+    // b
+    char[4] x,
 }")).
-Eval vm_compute in ("<<<M776>>>" ++ check (runes_of_ascii "packet A {
-  match k as n {
-    [""a""] : B
-    2 : C
-  },
-}")).
-Eval vm_compute in ("<<<M1242>>>" ++ check (runes_of_ascii "root packet
-    P {
+Eval vm_compute in ("<<<M1758>>>" ++ check (runes_of_ascii "
+// c
+    packet body	{
 
-    char
-	c
-    , u8  x 
+    i32
+
+f32a	`{ , }`
 ,
 
 }
+    options{  }
+
 ")).
-Eval vm_compute in ("<<<M332>>>" ++ check (runes_of_ascii "MetaData o
-    { } MetaData T  {
-    } options { }")).
-Eval vm_compute in ("<<<M1553>>>" ++ check (runes_of_ascii "options {
-    a = ""\
-    "";
-    b = ""\
-    ""
+Eval vm_compute in ("<<<M851>>>" ++ check (runes_of_ascii "packet A { Inner { match k as n { [1,22,007,4,5,66,7] : B, }, }, }")).
+Eval vm_compute in ("<<<M151>>>" ++ check (runes_of_ascii "packet
+    stringy
+{ } MetaData crc
+/// triple
+//x
+{ u16 o ,}")).
+Eval vm_compute in ("<<<M1949>>>" ++ check (runes_of_ascii "root packet P {
+    hdr {
+        u8 a,
+    },
+    u8 x,
 }")).
-Eval vm_compute in ("<<<M933>>>" ++ check (runes_of_ascii "MetaData M {
-    u8 x `
-`,
-    T t `
-`,
-}")).
-Eval vm_compute in ("<<<M1694>>>" ++ check (runes_of_ascii "packet A {
-    u8 x,// c
-    u8 y,
-}")).
-Eval vm_compute in ("<<<M1576>>>" ++ check (runes_of_ascii "packet A {
-    u8 x `d" ++ [65279]%N ++ runes_of_ascii "`,// c" ++ [65279]%N ++ runes_of_ascii "
-}")).
-Eval vm_compute in ("<<<M1038>>>" ++ check (runes_of_ascii "packet A {
- u8 x `d" ++ [12]%N ++ runes_of_ascii "`, // c" ++ [12]%N ++ runes_of_ascii "
-}")).
-Eval vm_compute in ("<<<M1834>>>" ++ check (runes_of_ascii "  packet 
-A {  }
-    // c" ++ [12]%N)).
-Eval vm_compute in ("<<<M51>>>" ++ check (runes_of_ascii "options {} // " ++ [128512]%N ++ runes_of_ascii " emoji")).
-Eval vm_compute in ("<<<M1667>>>" ++ check (runes_of_ascii "MetaData tag {
-}// c")).
-Eval vm_compute in ("<<<M992>>>" ++ check (runes_of_ascii "// c" ++ [133]%N ++ runes_of_ascii "
-packet A {
-}")).
-Eval vm_compute in ("<<<M1465>>>" ++ check (runes_of_ascii "MetaData roots {
-}")).
-Eval vm_compute in ("<<<M11>>>" ++ check (runes_of_ascii "packet zchar { }")).
-Eval vm_compute in ("<<<M732>>>" ++ check (runes_of_ascii "// a
-// b
+Eval vm_compute in ("<<<M1219>>>" ++ check (runes_of_ascii "packet body { i32 f32a `{ , }` , } options { } // c
 ")).
-Eval vm_compute in ("<<<M1055>>>" ++ check (runes_of_ascii "// c" ++ [6158]%N)).
+Eval vm_compute in ("<<<M1085>>>" ++ check (runes_of_ascii "packet A { B { // a
+ u8 x, // b
+ } // c
+ , // d
+ }")).
+Eval vm_compute in ("<<<M7>>>" ++ check (runes_of_ascii "options {  metadata = ""a\\""// @lengthOf(
+;}
+")).
+Eval vm_compute in ("<<<M1066>>>" ++ check (runes_of_ascii "packet A {
+    u8 x,    // c    u8 y,
+}")).
+Eval vm_compute in ("<<<M1719>>>" ++ check (runes_of_ascii "
+packet	A
+{
+
+u8	x
+	`d" ++ [65279]%N ++ runes_of_ascii "` , // c" ++ [65279]%N ++ runes_of_ascii "
+}")).
+Eval vm_compute in ("<<<M1890>>>" ++ check (runes_of_ascii "
+packet  A
+    {
+
+} 
+    // c" ++ [6158]%N ++ runes_of_ascii "
+")).
+Eval vm_compute in ("<<<M1058>>>" ++ check (runes_of_ascii "packet A {
+ u8 x `d" ++ [6158]%N ++ runes_of_ascii "`, // c" ++ [6158]%N ++ runes_of_ascii "
+}")).
+Eval vm_compute in ("<<<M1697>>>" ++ check (runes_of_ascii "packet
+A
+    { }
+	// c" ++ [8192]%N ++ runes_of_ascii "
+")).
+Eval vm_compute in ("<<<M153>>>" ++ check (runes_of_ascii "// trailing space 
+
+")).
+Eval vm_compute in ("<<<M244>>>" ++ check (runes_of_ascii "MetaData u128{} //x")).
+Eval vm_compute in ("<<<M1006>>>" ++ check (runes_of_ascii "packet A {
+}
+// c" ++ [8202]%N)).
+Eval vm_compute in ("<<<M729>>>" ++ check (runes_of_ascii "// only a comment")).
+Eval vm_compute in ("<<<M409>>>" ++ check (runes_of_ascii "packet uint8x
+{")).
+Eval vm_compute in ("<<<M749>>>" ++ check ([1; 65533]%N ++ runes_of_ascii ">&EQX" ++ [65533]%N ++ runes_of_ascii "P" ++ [65533; 65533]%N)).
+Eval vm_compute in ("<<<M1050>>>" ++ check (runes_of_ascii "// c" ++ [65279]%N)).
